@@ -285,7 +285,7 @@ impl Check for C20 {
         ID
     }
     fn world(&self) -> &'static str {
-        "D (real Terminal line editor on a simulated key device; history file in a scratch cache directory)"
+        "D (real Terminal line editor on a simulated key device; history file in a scratch cache directory) + B' (shipped binary on a pseudo-terminal)"
     }
     fn runs(&self, tier: Tier) -> u64 {
         match tier {
@@ -319,6 +319,9 @@ impl Check for C20 {
     }
     fn generate(&self, seed: u64, index: u64) -> J {
         let mut rng = Rng::new(run_seed(seed, ID, index));
+        if rng.chance(1, 150) {
+            return generate_pty(&mut rng);
+        }
         let history = *rng.pick(&HISTORIES);
         let n = 1 + rng.usize_below(40);
         let mut keys: Vec<Key2> = (0..n).map(|_| random_key(&mut rng)).collect();
@@ -555,6 +558,11 @@ impl Check for C20 {
             }
         }
 
+        // ----- phase 4: the shipped binary on a real pseudo-terminal -----
+        if v.is_empty() && scenario.get_bool("pty").unwrap_or(false) {
+            phase4(&history, &keys, scenario, &mut report, &mut v);
+        }
+
         report.nontrivial = keys.len() >= 2;
         sig.extend_from_slice(&(history.len() as u32).to_le_bytes());
         report.signature = fnv(&sig) ^ fnv(scenario.to_string().as_bytes());
@@ -596,7 +604,7 @@ impl Check for C20 {
         out
     }
     fn rule(&self) -> String {
-        "Key histories over {letters, digit, space, +, ;, _, -, é (2 bytes), 😀 (4 bytes), Backspace, Delete, Left, Right, Ctrl+Left, Ctrl+Right, Up, Down, Enter} starting from one of four pre-existing histories (empty, one entry, three entries incl. multi-byte and `;`, entries with leading blanks). Fixed part: every sequence of length 1..3 (quick) / 1..4 (thorough) over a 14-key alphabet from the empty and a three-entry history (enumerated completely; this part is enumeration and is labelled so). Seeded part: 1..40 random keys, one third with a burst of word motions placed right after a multi-byte character. Phase 1 drives the real Terminal::handle_key key by key and compares line, cursor, focused history entry and end-of-line with RefEditor after every key (cursor must stay within 0..=characters of the line; no panic). Phase 2 feeds the same keys to the real Terminal::read() path on the simulated key device and compares the returned commands (lines split on `;`) and the history list. One third of the seeded runs build the terminal with the real constructor on a history file in a scratch cache directory: the file holds the starting history (one in six of these: 999..2500 lines), and half of them damage it the way real files get damaged (a blank line as two sessions appending at once leave it, a line of invalid UTF-8, CRLF endings, no final newline, a directory in its place); the loaded list must be the file's intact lines, and afterwards the file must be the old bytes plus one line per new history entry. One fifth of the seeded runs add phase 3, a whole debugger session on a one-instruction program with echo commands in --command (blank pieces included) followed by typed lines with history recall: the commands the debugger accepts must be the argument's, then exactly the reference editor's lines (commands from --command are not terminal history). Non-trivial: at least 2 keys; distinct = distinct key history.".into()
+        "Key histories over {letters, digit, space, +, ;, _, -, é (2 bytes), 😀 (4 bytes), Backspace, Delete, Left, Right, Ctrl+Left, Ctrl+Right, Up, Down, Enter} starting from one of four pre-existing histories (empty, one entry, three entries incl. multi-byte and `;`, entries with leading blanks). Fixed part: every sequence of length 1..3 (quick) / 1..4 (thorough) over a 14-key alphabet from the empty and a three-entry history (enumerated completely; this part is enumeration and is labelled so). Seeded part: 1..40 random keys, one third with a burst of word motions placed right after a multi-byte character. Phase 1 drives the real Terminal::handle_key key by key and compares line, cursor, focused history entry and end-of-line with RefEditor after every key (cursor must stay within 0..=characters of the line; no panic). Phase 2 feeds the same keys to the real Terminal::read() path on the simulated key device and compares the returned commands (lines split on `;`) and the history list. One third of the seeded runs build the terminal with the real constructor on a history file in a scratch cache directory: the file holds the starting history (one in six of these: 999..2500 lines), and half of them damage it the way real files get damaged (a blank line as two sessions appending at once leave it, a line of invalid UTF-8, CRLF endings, no final newline, a directory in its place); the loaded list must be the file's intact lines, and afterwards the file must be the old bytes plus one line per new history entry. One fifth of the seeded runs add phase 3, a whole debugger session on a one-instruction program with echo commands in --command (blank pieces included) followed by typed lines with history recall: the commands the debugger accepts must be the argument's, then exactly the reference editor's lines (commands from --command are not terminal history). One seeded run in 150 (phase 4, world B') types its keys - over an alphabet that cannot spell a command, so that every line is rejected without effect - into the shipped `lace debug` process on a real pseudo-terminal, paced by feedback (one newline on the piped stdout per Enter, raw mode observed on the master side before the next line is written): after every key the prompt redraw on the terminal must show the reference's line and cursor column, the process must end with status 0 at the final `exit`, and the history file must hold the old bytes plus the submitted lines. Non-trivial: at least 2 keys; distinct = distinct key history.".into()
     }
     fn assumptions(&self) -> Vec<String> {
         vec![
@@ -612,7 +620,7 @@ impl Check for C20 {
             .set(
                 "real",
                 J::Arr(
-                    ["Terminal::handle_key", "find_word_next/find_word_back", "insert/remove_char_index", "update_next/get_current", "Terminal::read/read_line/read_line_raw/get_next_command", "history push rule", "TerminalHistory::new/read_file/push (history file)", "Stream::new + Debugger::run_command (phase 3)"]
+                    ["Terminal::handle_key", "find_word_next/find_word_back", "insert/remove_char_index", "update_next/get_current", "Terminal::read/read_line/read_line_raw/get_next_command", "history push rule", "TerminalHistory::new/read_file/push (history file)", "Stream::new + Debugger::run_command (phase 3)", "phase 4: the shipped binary - crossterm event decoding and term.rs key mapping, raw mode switching, print_prompt, history file"]
                         .iter()
                         .map(|s| J::from(*s))
                         .collect(),
@@ -621,7 +629,7 @@ impl Check for C20 {
             .set(
                 "stub",
                 J::Arr(
-                    ["crossterm event source (simulated key queue)", "raw mode switching (no-op)", "history file: real file I/O on a scratch XDG_CACHE_HOME for one third of the seeded runs, constructor without file otherwise", "prompt drawing goes to the captured stderr"]
+                    ["crossterm event source (simulated key queue; the real one in phase 4)", "raw mode switching (no-op; real in phase 4)", "history file: real file I/O on a scratch XDG_CACHE_HOME for one third of the seeded runs, constructor without file otherwise", "prompt drawing goes to the captured stderr"]
                         .iter()
                         .map(|s| J::from(*s))
                         .collect(),
@@ -629,7 +637,7 @@ impl Check for C20 {
             )
     }
     fn expected_probes(&self) -> Vec<&'static str> {
-        vec!["probe:multibyte_on_line", "probe:word_motion_with_multibyte", "probe:history_recall", "probe:line_submitted", "probe:commands_read", "probe:argument_then_terminal_session"]
+        vec!["probe:multibyte_on_line", "probe:word_motion_with_multibyte", "probe:history_recall", "probe:line_submitted", "probe:commands_read", "probe:argument_then_terminal_session", "fault:real_pseudo_terminal_session", "fault:pre_existing_history_file"]
     }
 }
 
@@ -754,6 +762,175 @@ fn phase3(cap: &Capture, argument: &str, history: &[String], report: &mut Report
                 got.get(at),
                 want.get(at),
                 argument
+            ),
+        ));
+    }
+}
+
+/// Characters that cannot form a command name: whatever is typed, every line is rejected by the
+/// debugger without effect, so the session lasts until the final `exit`.
+const PTY_CHARS: [char; 12] = ['9', '0', ' ', '+', ';', '_', 'é', '😀', '-', '\u{301}', 'ğ', '7'];
+const PTY_HISTORIES: [&[&str]; 3] = [&[], &["9 9+ _"], &["é😀 -0;9", "7", "  9_0 ++ é"]];
+
+fn generate_pty(rng: &mut Rng) -> J {
+    let history = *rng.pick(&PTY_HISTORIES);
+    let n = 1 + rng.usize_below(30);
+    let keys: Vec<Key2> = (0..n)
+        .map(|_| match rng.below(20) {
+            0..=8 => Key2::Char(*rng.pick(&PTY_CHARS)),
+            9 => Key2::Backspace,
+            10 => Key2::Delete,
+            11 => Key2::Left,
+            12 => Key2::Right,
+            13 | 14 => Key2::CtrlLeft,
+            15 | 16 => Key2::CtrlRight,
+            17 => Key2::Up,
+            18 => Key2::Down,
+            _ => Key2::Enter,
+        })
+        .collect();
+    let mut scenario = scenario_json(history, &keys);
+    scenario.put("pty", true);
+    scenario.put("pty_minimal", rng.chance(2, 3));
+    scenario.put("pty_history_file", !history.is_empty() || rng.coin());
+    scenario
+}
+
+/// The same keys typed on a real pseudo-terminal into the shipped `lace debug`: crossterm's
+/// decoding, raw mode, the prompt redraw after every key (line text and cursor column) and the
+/// history file are the real ones.
+fn phase4(history: &[String], keys: &[Key2], scenario: &J, report: &mut Report, v: &mut Vec<Violation>) {
+    use crate::world_b::Scratch;
+    use crate::world_pty::{key_bytes, redraws, run_pty, Chunk};
+    // Keys of the scenario, then a fresh line holding `exit`
+    let mut all: Vec<Key2> = keys.to_vec();
+    for _ in 0..history.len() + 8 {
+        all.push(Key2::Down);
+    }
+    for _ in 0..48 {
+        all.push(Key2::Right);
+    }
+    for _ in 0..48 {
+        all.push(Key2::Backspace);
+    }
+    for c in "exit".chars() {
+        all.push(Key2::Char(c));
+    }
+    all.push(Key2::Enter);
+
+    // Reference: state before every key (what each redraw shows), chunks, final history
+    let mut model = Editor::new(history.to_vec());
+    model.begin_line();
+    let mut expected_redraws: Vec<(String, usize)> = Vec::new();
+    let mut chunks: Vec<Chunk> = Vec::new();
+    let mut bytes: Vec<u8> = Vec::new();
+    for key in &all {
+        if matches!(key, Key2::CtrlRight) {
+            let cur = model.current();
+            let (_, determined) = crate::model::editor::word_next(&cur, model.cursor);
+            if !determined && model.cursor < cur.len() {
+                report.hit("adopted:undetermined_word_motion_in_pty_session");
+                return;
+            }
+        }
+        expected_redraws.push((model.current().iter().collect(), 6 + model.cursor + 1));
+        bytes.extend_from_slice(&key_bytes(key));
+        let submitted = model.key(key, None);
+        if matches!(key, Key2::Enter) {
+            chunks.push(Chunk {
+                bytes: std::mem::take(&mut bytes),
+                submits: submitted.is_some(),
+            });
+        }
+        if let Some(line) = submitted {
+            model.submitted(&line);
+            model.begin_line();
+        }
+    }
+
+    let scratch = Scratch::new("c20pty");
+    let asm = scratch.path("p.asm");
+    if std::fs::write(&asm, "    halt\n").is_err() {
+        return;
+    }
+    let with_file = scenario.get_bool("pty_history_file").unwrap_or(false);
+    let mut before: Vec<u8> = Vec::new();
+    for line in history {
+        before.extend_from_slice(line.as_bytes());
+        before.push(b'\n');
+    }
+    // Without a file the history is empty: such scenarios start from the empty history
+    if !with_file && !history.is_empty() {
+        return;
+    }
+    let minimal = scenario.get_bool("pty_minimal").unwrap_or(true);
+    let mut run = run_pty(&scratch, &asm, minimal, if with_file { Some(&before) } else { None }, &chunks);
+    if run.stalled.is_some() {
+        // A stall is only a verdict if it repeats: the guard is the one place where the load of
+        // the machine could show
+        report.hit("probe:pty_session_repeated_after_stall");
+        run = run_pty(&scratch, &asm, minimal, if with_file { Some(&before) } else { None }, &chunks);
+    }
+    report.hit("fault:real_pseudo_terminal_session");
+    report.count("processes", 1);
+    if let Some(e) = &run.spawn_error {
+        // No pty available here: not a verdict about lace
+        report.hit(&format!("probe:pty_unavailable({})", e));
+        return;
+    }
+    let shown = |r: &[(String, usize)]| r.iter().rev().take(3).rev().cloned().collect::<Vec<_>>();
+    if let Some(what) = &run.stalled {
+        v.push(Violation::new(
+            ID,
+            "C20/pty/stalled".to_string(),
+            format!("session on the pseudo-terminal did not react: waiting for {}; last redraws {:?}", what, shown(&redraws(&run.tty))),
+        ));
+        return;
+    }
+    if run.status != Some(0) {
+        let text = String::from_utf8_lossy(&run.tty);
+        let panic = text.find("panicked at").map(|at| text[at..].chars().take(160).collect::<String>());
+        v.push(Violation::new(
+            ID,
+            format!("C20/pty/status={:?}{}", run.status, if panic.is_some() { "/panic" } else { "" }),
+            format!("session on the pseudo-terminal ended with {:?} {}", run.status, panic.unwrap_or_default()),
+        ));
+        return;
+    }
+    let got = redraws(&run.tty);
+    if got != expected_redraws {
+        let at = (0..got.len().max(expected_redraws.len())).find(|i| got.get(*i) != expected_redraws.get(*i)).unwrap_or(0);
+        let what = match (got.get(at), expected_redraws.get(at)) {
+            (Some(g), Some(e)) if g.0 != e.0 => "line",
+            (Some(_), Some(_)) => "cursor-column",
+            _ => "count",
+        };
+        v.push(Violation::new(
+            ID,
+            format!("C20/pty/redraw/{}", what),
+            format!(
+                "prompt redraw #{} on the pseudo-terminal (before key {:?}): real {:?}, reference {:?}",
+                at,
+                all.get(at).map(|k| k.name()),
+                got.get(at),
+                expected_redraws.get(at)
+            ),
+        ));
+        return;
+    }
+    let mut want = before.clone();
+    for line in &model.history[history.len()..] {
+        want.extend_from_slice(line.as_bytes());
+        want.push(b'\n');
+    }
+    if run.history_after.as_deref() != Some(&want[..]) {
+        v.push(Violation::new(
+            ID,
+            "C20/pty/history-file".to_string(),
+            format!(
+                "history file after the pseudo-terminal session: {:?}, reference {:?}",
+                run.history_after.as_ref().map(|b| String::from_utf8_lossy(b).into_owned()),
+                String::from_utf8_lossy(&want)
             ),
         ));
     }
